@@ -126,11 +126,15 @@ class CFG:
             self.of[st] = t
             self._connect(pend, t)
             self._exc_edges(t, frame)
-            out = self._body(st.body, [(t, "true")], frame)
-            if st.orelse:
-                out += self._body(st.orelse, [(t, "false")], frame)
-            else:
-                out.append((t, "false"))
+            const = isinstance(st.test, ast.Constant)
+            out = []
+            if not const or st.test.value:
+                out += self._body(st.body, [(t, "true")], frame)
+            if not const or not st.test.value:
+                if st.orelse:
+                    out += self._body(st.orelse, [(t, "false")], frame)
+                else:
+                    out.append((t, "false"))
             return out
         if isinstance(st, ast.While):
             t = self._new("test", st)
